@@ -1,4 +1,5 @@
 import PwVerif.Proofs.ForLoop
+import PwVerif.Proofs.BridgeC16C01
 /-!
 # C16 — A for-loop node computes exactly the nested-times-zipped table of its body
 
@@ -188,6 +189,54 @@ theorem C16_statement_partial (s : Spec κ ν) (hd : ColsDistinct s) : C16Statem
   have := C16_history s ⟨lay, hd⟩ hs hcov cur order g hcv
   exact ⟨this.1, this.2.1⟩
 
+/-- PICKLING. After EVERY history of runs (any inputs, any completion orders), pickle / save-load
+round trips of the node at rest (`Ev.reload`: between runs, after refused or failed runs) and copies
+restored from a pickle taken WHILE body nodes were out (`Ev.snap`, running flag cleared by hand), a run
+on good inputs returns the reference table for the CURRENT inputs, and the children are the input
+nodes plus what the current lengths dictate -/
+theorem C16_roundtrip (s : Spec κ ν) (v : Valid s) (hs : List (Ev κ ν))
+    (hcov : ∀ cur order, Ev.run cur order ∈ hs → Good s cur → Covers order (combos s cur).length)
+    (cur : Cur κ ν) (order : List Nat) (g : Good s cur) (hc : Covers order (combos s cur).length) :
+    let st := evs s (init s) hs
+    (run s st cur order).2 = .ok ∧ (run s st cur order).1.outs = refOuts s cur ∧
+    (run s st cur order).1.children = s.bodyInputs.map .input
+      ++ freshChildren s (refMaps (lensOfCur cur s.iterOn) (lensOfCur cur s.zipOn)) :=
+  run_good_inv s _ cur order v g hc (evs_inv s (init s) hs v hcov (inv_init s))
+
+/-- … so the table of a later run is unchanged by round trips at any point of the history: whatever
+two histories (with or without round trips and snapshots, whatever happened in between) precede it,
+the run on the same good inputs gives the same result, the same outputs and the same children -/
+theorem C16_roundtrip_unchanged (s : Spec κ ν) (v : Valid s) (hs hs' : List (Ev κ ν))
+    (hcov : ∀ cur order, Ev.run cur order ∈ hs → Good s cur → Covers order (combos s cur).length)
+    (hcov' : ∀ cur order, Ev.run cur order ∈ hs' → Good s cur → Covers order (combos s cur).length)
+    (cur : Cur κ ν) (order order' : List Nat) (g : Good s cur)
+    (hc : Covers order (combos s cur).length) (hc' : Covers order' (combos s cur).length) :
+    (run s (evs s (init s) hs) cur order).2 = (run s (evs s (init s) hs') cur order').2 ∧
+    (run s (evs s (init s) hs) cur order).1.outs = (run s (evs s (init s) hs') cur order').1.outs ∧
+    (run s (evs s (init s) hs) cur order).1.children = (run s (evs s (init s) hs') cur order').1.children := by
+  have h1 := C16_roundtrip s v hs hcov cur order g hc
+  have h2 := C16_roundtrip s v hs' hcov' cur order' g hc'
+  exact ⟨h1.1.trans h2.1.symm, h1.2.1.trans h2.2.1.symm, h1.2.2.trans h2.2.2.symm⟩
+
+/-- what a copy restored from a mid-run pickle looks like: the sub-graph of the run in flight, outputs
+as delivered with NO body completed, no input cache — so it has to run, a repetition of the same
+inputs is no hit -/
+theorem C16_midrun_copy (s : Spec κ ν) (st st' : St κ ν) (cur : Cur κ ν) (h : midRun s st cur = some st') :
+    st'.outs = evalOuts s cur st'.maps [] ∧ st'.children = build s st'.maps st.children ∧
+    st'.cached = none ∧ ∀ cur', isHit s st' cur' = false := by
+  unfold midRun at h
+  split at h
+  · cases h
+  · split at h
+    · split at h
+      · cases h
+      · split at h
+        · cases h
+        · simp only [Option.some.injEq] at h
+          subst h
+          exact ⟨rfl, rfl, rfl, fun cur' => by simp [isHit]⟩
+    · cases h
+
 omit [DecidableEq ν] in
 /-- no leftovers: a build keeps exactly the input nodes and adds children that are a function of
 the index maps alone -/
@@ -221,6 +270,89 @@ theorem C16_child_count (s : Spec κ ν) (nested zipped : List (κ × Nat)) (g :
       = childCount s nested zipped := length_freshChildren_ref s nested zipped g
 
 end
+
+/-! ## executors: bridge to C01's scheduler model (`Proofs/BridgeC16C01.lean`) -/
+section
+open PwVerif.Exec PwVerif.BridgeC16C01
+variable {κ ν : Type} [DecidableEq κ]
+
+/-- the sub-graph the loop builds (user-input nodes, injected get-item nodes, body copies, row
+collectors, dataframe node; `forSlots`) is, for EVERY layout, EVERY list of index maps, EVERY
+assignment of children to executors and any left-over outputs, a well-formed acyclic C01 composite:
+`Exec.WF` holds and the layer `id % 5` is a ranking -/
+theorem C16_graph_wf (s : Spec κ ν) (maps : List (Dict κ)) (onExec : Nat → Bool) (out0 : Nat → Exec.Val) :
+    Exec.WF (forDag s maps onExec out0) ∧ (forDag s maps onExec out0).slots = forSlots s maps ∧
+    BridgeC16C01.NoFaults (forDag s maps onExec out0) ∧
+    ∀ i j, j ∈ (forDag s maps onExec out0).deps i → j % 5 < i % 5 := sched_wf s maps onExec out0
+
+/-- SCHEDULE INDEPENDENCE (table form). For good inputs, ANY well-formed C01 composite `d` over the
+loop's sub-graph (any order of `ran` connections / starting nodes, ANY executor assignment, any
+outputs left by earlier runs of the input nodes) and ANY schedule — any interleaving of starts, signal
+deliveries and executor completions, i.e. every completion order of executor-run body nodes — that
+runs it to the end: the value the dataframe node holds denotes exactly the reference table, and every
+body copy has been executed exactly once. Proof: `C01_once` + `C01_value` determine the term,
+`evalOuts_ref` its meaning. -/
+theorem C16_schedule_independent (s : Spec κ ν) (v : Valid s) (hdf : s.asDf = true) (cur : Cur κ ν)
+    (g : Good s cur) {cfg : Exec.Cfg} {d : Exec.Dag} {t : Exec.S}
+    (h : Sched s (refMaps (lensOfCur cur s.iterOn) (lensOfCur cur s.zipOn)) cfg d t) :
+    evalV (sem s cur) (t.out dfId) = .table (some (refTable s cur)) ∧
+    ∀ n, n < (combos s cur).length → t.calls (bodyId n) = 1 ∧ t.st (bodyId n) = .done :=
+  schedule_independent s v hdf cur g h
+
+/-- two runs of the same sub-graph under different executor assignments, signal orders and schedules
+end with the same value at the dataframe node -/
+theorem C16_schedule_pair (s : Spec κ ν) (maps : List (Dict κ)) (w : Wired s maps) (hne : maps ≠ [])
+    {cfg cfg' : Exec.Cfg} {d d' : Exec.Dag} {t t' : Exec.S} (h : Sched s maps cfg d t)
+    (h' : Sched s maps cfg' d' t') : t.out dfId = t'.out dfId :=
+  schedule_independent_pair s maps w hne h h'
+
+end
+
+/-! ### non-vacuity of the bridge: a concrete sub-graph (one iterated input of length 2, one broadcast
+input), both body copies on an executor, the SECOND body completing first -/
+namespace BridgeEx
+open PwVerif.Exec PwVerif.BridgeC16C01
+
+def sp : Spec Nat Nat :=
+  { bodyInputs := [0, 1], bodyDefault := fun _ => none, outputs := [7], iterOn := [0], zipOn := [], asDf := true,
+    useCache := true, gateCache := true, clearOnFail := true, startAbort := false, colmap := fun _ => 9,
+    mapKeys := [7], checkCols := true, bodyFn := fun _ args => args.sum, listVal := List.sum }
+def cu : Cur Nat Nat := [(0, .many [10, 20]), (1, .one 5)]
+def D : Dag :=
+  forDag sp (refMaps (lensOfCur cu sp.iterOn) (lensOfCur cu sp.zipOn)) (fun i => i % 5 == 2) (fun _ => .nd)
+/-- inputs 0, 5 start; get-items 1, 11; bodies 2, 7 are submitted; body 7 (row 1) completes BEFORE
+body 2 (row 0); rows 3, 8; dataframe 4 -/
+def acts : List Act := [.start, .start, .deliver, .deliver, .deliver, .deliver, .deliver, .deliver, .complete 7,
+  .deliver, .deliver, .complete 2, .deliver, .deliver, .exit]
+def tEx : S := (runActs Cfg.repaired D (init D) acts).getD (init D)
+
+theorem reach : runActs Cfg.repaired D (init D) acts = some tEx := by
+  have hsome : (runActs Cfg.repaired D (init D) acts).isSome = true := by decide
+  unfold tEx
+  cases h : runActs Cfg.repaired D (init D) acts with
+  | some x => rfl
+  | none => rw [h] at hsome; cases hsome
+
+theorem sched : Sched sp (refMaps (lensOfCur cu sp.iterOn) (lensOfCur cu sp.zipOn)) Cfg.repaired D tEx :=
+  ⟨rfl, forDag_wf _ _ _ _, fun _ => rfl, ⟨acts, reach⟩, by decide⟩
+
+theorem valid : Valid sp := ⟨⟨by decide, by decide, by decide⟩, by unfold ColsDistinct; decide⟩
+theorem good : Good sp cu where
+  keys := rfl
+  data := by intro kv h; simp [cu] at h; rcases h with rfl | rfl <;> simp
+  lists := by
+    intro k hk
+    simp [sp] at hk
+    subst hk
+    exact ⟨[10, 20], rfl, by simp⟩
+
+/-- the theorem applies to this run … -/
+example : evalV (sem sp cu) (tEx.out dfId) = .table (some (refTable sp cu)) :=
+  (C16_schedule_independent sp valid rfl cu good sched).1
+/-- … whose completion log really has row 1's body (7) before row 0's (2), and whose table is -/
+example : tEx.doneLog = [0, 5, 1, 11, 7, 8, 2, 3, 4] := by decide
+example : refTable sp cu = [[(0, 10), (9, 15)], [(0, 20), (9, 25)]] := by decide
+end BridgeEx
 
 /-! ## Non-vacuity: a concrete layout (two iterated, one zipped, one broadcast input; renamed
 column), concrete inputs, a history with an empty list and a shrinking re-run -/
@@ -325,6 +457,29 @@ example :
       intro k hk
       simp [exSpec] at hk
       rcases hk with rfl | rfl | rfl <;> rfl)
+/-- `C16_roundtrip`: a good run, a round trip, a snapshot taken during a run with other lengths (the history
+continues on the copy), a refused run (empty list), another round trip — then a run with new lengths -/
+example :
+    let hs : List (Ev String (List Nat)) :=
+      [.run (exCur [[1], [2]] [[3]] [[4], [5]]) [3, 1, 0, 2], .reload, .snap (exCur [[1]] [[3]] [[4], [5]]),
+       .run (exCur [] [[3]] [[4], [5]]) [0, 1], .reload]
+    (run (exSpec true) (evs (exSpec true) (init (exSpec true)) hs) (exCur [[1]] [[3], [8]] [[4]]) [1, 0]).2 = .ok :=
+  (C16_roundtrip (exSpec true) (exValid true) _
+    (by
+      intro cur order hh g
+      simp only [List.mem_cons, List.mem_nil_iff, or_false, reduceCtorEq, false_or, Ev.run.injEq] at hh
+      rcases hh with ⟨rfl, rfl⟩ | ⟨rfl, rfl⟩
+      · intro n hn; have : n < 4 := hn; simp; omega
+      · exact absurd g (fun g => by
+          obtain ⟨vs, h1, h2⟩ := g.lists "a" (by decide)
+          simp [exCur, valOf] at h1; exact h2 h1))
+    _ [1, 0] (exGood true _ _ _ (by simp) (by simp) (by simp))
+    (by intro n hn; have : n < 2 := hn; simp; omega)).1
+/-- `C16_midrun_copy`: a snapshot exists exactly when a run is in flight -/
+example : (midRun (exSpec true) (init (exSpec true)) (exCur [[1], [2]] [[3]] [[4], [5]])).isSome = true := by decide
+example : (midRun (exSpec true) (run (exSpec true) (init (exSpec true)) (exCur [[1]] [[3]] [[4]]) [0]).1
+    (exCur [[1]] [[3]] [[4]])).isSome = false := by decide
+
 /-- `C16_maps_in_range` / `C16_maps_of_spec`: the helper succeeds on a duplicated key and on a plain layout -/
 example : indexMapsOf (fun k => if k = "a" then DLen.len 2 else if k = "c" then .len 3 else .missing)
     (some ["a", "a"]) (some ["c", "a"])
@@ -396,3 +551,9 @@ end PwVerif.C16
 #print axioms PwVerif.C16.C16_statement_repaired
 #print axioms PwVerif.C16.C16_statement_partial
 #print axioms PwVerif.C16.C16_pinned_witness
+#print axioms PwVerif.C16.C16_graph_wf
+#print axioms PwVerif.C16.C16_schedule_independent
+#print axioms PwVerif.C16.C16_schedule_pair
+#print axioms PwVerif.C16.C16_roundtrip
+#print axioms PwVerif.C16.C16_roundtrip_unchanged
+#print axioms PwVerif.C16.C16_midrun_copy
